@@ -82,8 +82,20 @@ _REMOVEOVERLAP_SUMMARY = {
                 "forall(lambda l, j: implies(l is not nodes and old(alloc(l)), l[j] is old_at(l, j)), 'slist:ref:Node', 'int')"],
 }
 
+def _ghost_passed_options(E, P, ctx, args):
+    """before every `removeOverlap.removeOverlap(nodes, simOptions)`: the options handed to the overlap-removal step are the
+    engine's CONFIGURED spacing and bounds (C01 "the configured spacing", C03 "a lower and/or upper bound is configured") -
+    stated over the value that is passed, not over the name of a local"""
+    fr = E.new_frame(P, {"passed": args[1]})
+    sctx = ctx.child(fr).asspec()
+    for k in ("nodeSpacing", "minPos", "maxPos"):
+        E.prove_spec(P, "call.removeOverlap.receives_configured_%s" % k,
+                     "'%s' in passed and passed['%s'] == self.options['%s']" % (k, k, k), sctx, "assert")
+
+
 CONTRACTS["force.Force.compute"] = {
-    "props": ["C04", "C06"], "heap": True,
+    "props": ["C04", "C06", "C02", "C01", "C03"], "heap": True,
+    "ghost": {"before_call:removeOverlap.removeOverlap": _ghost_passed_options},
     "params": {"self": force_full()},
     "requires": ["forall(lambda j: implies(0 <= j < len(self._nodes), self._nodes[j] is not None))"],
     "modifies": _NODE_ALL + _LISTS,
